@@ -107,21 +107,35 @@ func c08Invalidate(list []*c08Res, strobe bool) {
 
 // c08Run: a writer performs a script of writes (control toggles and data
 // bumps, chosen step by step), optionally PurgeCache / Stop happen.
-func c08Run(steps int, maxRuns int, preStop bool) {
+type c08Opts struct {
+	steps    int   // max writer steps (chosen 1..steps) unless script is set
+	script   []int // fixed writer script
+	kinds    int   // step kinds available: 2 = {toggle, data}, 3 = + PurgeCache
+	maxRuns  int
+	timer    bool // InvalidateAfter by choice
+	twoKeys  bool // second cached child by choice
+	strobe   bool // strobe instead of invalidate by choice
+	stop     bool // Stop at any point by choice
+}
+
+func c08Run(o c08Opts) {
 	WriteThenReadDelay = 0
-	w := &c08World{maxRuns: maxRuns, lastData: -1}
-	w.useTimer = nondet.Choice("timer", 2) == 1
-	w.twoKeys = nondet.Choice("twoKeys", 2) == 1
-	strobe := nondet.Choice("strobe", 2) == 1
+	w := &c08World{maxRuns: o.maxRuns, lastData: -1}
+	w.useTimer = o.timer && nondet.Choice("timer", 2) == 1
+	w.twoKeys = o.twoKeys && nondet.Choice("twoKeys", 2) == 1
+	strobe := o.strobe && nondet.Choice("strobe", 2) == 1
 	var purgeCtx context.Context
 	r := NewRerunner(context.Background(), func(ctx context.Context) (interface{}, error) {
 		purgeCtx = ctx
 		return w.compute(ctx)
 	}, 0, false)
-	nsteps := 1 + nondet.Choice("nsteps", steps)
-	kinds := make([]int, nsteps)
-	for i := range kinds {
-		kinds[i] = nondet.Choice("step"+strconv.Itoa(i), 3)
+	kinds := o.script
+	if kinds == nil {
+		nsteps := 1 + nondet.Choice("nsteps", o.steps)
+		kinds = make([]int, nsteps)
+		for i := range kinds {
+			kinds[i] = nondet.Choice("step"+strconv.Itoa(i), o.kinds)
+		}
 	}
 	nondet.Go("writer", func() {
 		for _, k := range kinds {
@@ -140,7 +154,7 @@ func c08Run(steps int, maxRuns int, preStop bool) {
 			}
 		}
 	})
-	stop := nondet.Choice("stop", 2) == 1
+	stop := o.stop && nondet.Choice("stop", 2) == 1
 	if stop {
 		nondet.Go("stopper", func() {
 			r.Stop()
@@ -168,8 +182,27 @@ func c08Run(steps int, maxRuns int, preStop bool) {
 	nondet.Cover("settled")
 }
 
-func VerifC08Two()   { c08Run(2, 6, false) }
-func VerifC08Three() { c08Run(3, 8, false) }
+// VerifC08Conditional: the cached child is used, dropped, and used again while
+// its datum changes in between (control toggle, data bump, control toggle).
+func VerifC08Conditional() {
+	c08Run(c08Opts{script: []int{0, 1, 0}, maxRuns: 6})
+}
+
+// VerifC08StopDuringRun: one data change and a Stop at any point, with and
+// without an InvalidateAfter timer: every registered resource is cleaned once.
+func VerifC08StopDuringRun() {
+	c08Run(c08Opts{script: []int{1}, maxRuns: 5, timer: true, stop: true})
+}
+
+// VerifC08Two: every writer script of 1-2 steps over {toggle, data}.
+func VerifC08Two() {
+	c08Run(c08Opts{steps: 2, kinds: 2, maxRuns: 6, strobe: true})
+}
+
+// VerifC08Full: scripts of 1-3 steps incl. PurgeCache, two cached children, timer, Stop.
+func VerifC08Full() {
+	c08Run(c08Opts{steps: 3, kinds: 3, maxRuns: 8, timer: true, twoKeys: true, strobe: true, stop: true})
+}
 
 func VerifC08Witness() {
 	WriteThenReadDelay = 0
